@@ -1052,6 +1052,24 @@ fn rt_frame(m: &mut Map<String, Value>, encoded: &[u8]) {
     }
 }
 
+/// the same encoding read back through the asynchronous reader (whole input available, then the
+/// end of the stream): `rta` must equal `rt`
+fn rt_frame_async(m: &mut Map<String, Value>, encoded: &[u8]) {
+    let mut rd = ScriptedReader::new(encoded, &[], Eof::Fin);
+    let r = lib(|| drive(Frame::read_async(&mut rd), MAX_POLLS));
+    match r {
+        Some(Ok(f)) => {
+            let mut r = Map::new();
+            frame_fields(&mut r, &f);
+            put(&mut r, "used", json!(rd.pos));
+            put(m, "rta", Value::Object(r));
+        }
+        Some(Err(frame::IoReadError::Parse(e))) => put(m, "rta", json!({"res": "err", "e": frame_perr(&e)})),
+        Some(Err(frame::IoReadError::IO(e))) => put(m, "rta", json!({"res": "io", "e": bio(&e)})),
+        None => put(m, "rta", json!({"res": "pending"})),
+    }
+}
+
 pub fn frame_enc(t: &mut Tracer, k: FKind, plen: usize, salt: usize, script: &[usize]) {
     let payload = crate::gen::pattern(plen, salt);
     let meas = measure(|| {
@@ -1064,6 +1082,7 @@ pub fn frame_enc(t: &mut Tracer, k: FKind, plen: usize, salt: usize, script: &[u
         put(&mut m, "size", json!(lib(|| f.write_size())));
         out_bytes(&mut m, &out);
         rt_frame(&mut m, &out);
+        rt_frame_async(&mut m, &out);
         m
     });
     emit(t, "frame_enc", "vec", meas);
